@@ -595,8 +595,8 @@ static void* _realloc_merge (hawk_xma_t* xma, void* b, hawk_oow_t size)
 				y->prev_size = blk->size;
 
 				attach_to_freelist (xma, (hawk_xma_fblk_t*)y);
-				/*n = next_mblk(y);
-				if ((hawk_uint8_t*)n < xma->end)*/ n->prev_size = y->size;
+				/* 'n' is the block next to 'y'. it doesn't exist if 'blk' is the last block of the zone */
+				if ((hawk_uint8_t*)n < xma->end) n->prev_size = y->size;
 
 #if defined(HAWK_XMA_ENABLE_STAT)
 				xma->stat.nfree++;
